@@ -225,8 +225,74 @@ def run_c16(ctx):
                 "durations, contract addresses, checked add/sub/duration_since on symbolic u64 values. distinct = distinct vectors")
 
 
+def cbor_term_bytes(term):
+    out = b""
+    for p in term:
+        k = p[0]
+        if k == "b":
+            out += bytes(p[1])
+        elif k == "r":
+            out += bytes([p[1]]) * p[2]
+        elif k == "be":
+            lo = p[3] if p[3] >= 0 else (1 << 32) + p[3]
+            out += ((p[2] << 32) | lo).to_bytes(8, "big")[8 - p[1]:]
+        else:
+            raise ToolError("bad term part %r" % (p,))
+    return out
+
+
+def run_c17(ctx):
+    quick = ctx.tier == "quick"
+    r = ctx.tlc(SPEC, "Cbor.tla", "Cbor.cfg", workers=4, timeout=900)
+    ctx.exhaustive = True
+    vecs = [json.loads(s) for s in r.replays]
+    derived = []
+    for v in vecs:
+        if v["expect"] == "accept" and v["ty"] != "TokenAmountText":
+            data = cbor_term_bytes(v["bytes"])
+            n = len(data)
+            for c in sorted(set(list(range(0, min(n, 20))) + list(range(max(0, n - 4), n)) + [n // 2])):
+                if c < n:
+                    derived.append({"ty": v["ty"], "bytes": [["b", list(data[:c])]], "expect": "reject", "class": "proper prefix (%d of %d bytes)" % (c, n), "fields": {}, "opts": v["opts"]})
+            derived.append({"ty": v["ty"], "bytes": [["b", list(data + b"\x00")]], "expect": "reject", "class": "trailing data", "fields": {}, "opts": v["opts"]})
+            step = max(1, (8 * n) // (64 if quick else 1024))
+            for bit in range(0, 8 * n, step):
+                m = bytearray(data)
+                m[bit // 8] ^= 1 << (bit % 8)
+                derived.append({"ty": v["ty"], "bytes": [["b", list(m)]], "expect": "any", "class": "bit flip", "fields": {}, "opts": v["opts"]})
+    s1, _ = replay_behaviours(ctx, "base", "cbor-replay", [json.dumps(v) for v in vecs + derived], "cbor")
+    h = s1["by_action"]
+    ctx.extra["vector_histogram"] = h
+    ctx.extra["spec_vectors"] = len(vecs)
+    ctx.extra["derived_vectors"] = len(derived)
+    need = [k for k in ("Value:accept", "Value:reject", "TokenOperations:accept", "TokenOperations:reject", "TokenAmount:reject", "TokenAmountText:accept", "TokenOperationsUpward:accept", "CborHolderAccount:reject") if h.get(k, 0) == 0]
+    if need:
+        raise ToolError("vacuous run: %s" % need)
+    v = json.loads(json.dumps(next(x for x in vecs if x["ty"] == "TokenAmount" and x["fields"])))
+    v["fields"]["decimals"] = v["fields"]["decimals"] + 1
+    inp = os.path.join(ctx.work, "canary.ndjson")
+    outp = os.path.join(ctx.work, "canary.res")
+    write_ndjson(inp, [v])
+    ctx.harness("base", ["cbor-replay", inp, outp])
+    if not [x for x in read_ndjson(outp) if not x.get("summary")]:
+        raise ToolError("canary: altered field expectation not flagged")
+    ctx.extra["canary"] = "altered decoded decimals flagged"
+    ctx.samples = [{"kind": "CBOR vector", "vector": next(x for x in vecs if x["ty"] == "TokenOperations" and x["expect"] == "accept" and len(x["bytes"]) > 6)},
+                   {"kind": "near miss", "vector": next(x for x in vecs if x["expect"] == "reject" and x["ty"] == "TokenOperations")}]
+    ctx.assumptions += [
+        "value::Value maps are compared modulo entry order (the encoder sorts keys); the decoder is deliberately permissive about non-shortest heads, indefinite lengths and duplicate keys: for those only totality and stability of decode . encode . decode are required (DESIGN O9)",
+        "token types are transcribed from cddl/cis-7.cddl; TokenAmount string forms for decimals <= 28 (rust_decimal scale, DESIGN O8)",
+        "nesting deeper than 64 is outside the claim",
+    ]
+    ctx.rule = ("Cbor.tla vectors: integers at every head-width boundary, byte/text strings, arrays, maps, tags, nesting to depth 64, decoder-rule near misses (trailing data, truncated items, invalid UTF-8, "
+                "hostile lengths, reserved heads), token amounts / operations / holder accounts from the CDDL with missing mandatory fields, undeclared fields under both decoding options, ill-typed items, "
+                "unknown variants preserved; token amounts across CBOR, decimal string and JSON; plus prefixes, trailing data and bit flips of every canonical vector. distinct = distinct vectors")
+
+
 def run(ctx):
     ctx.build("base")
+    if ctx.prop == "C17":
+        return run_c17(ctx)
     if ctx.prop == "C05":
         return run_c05(ctx)
     if ctx.prop == "C16":
